@@ -1,2 +1,10 @@
 import LP.Props.C20
-#print axioms LP.C20_placeholder
+#print axioms LP.SpecSet.C20_spec_insert
+#print axioms LP.SpecSet.C20_spec_remove
+#print axioms LP.SpecSet.C20_spec_size
+#print axioms LP.listMax?_spec
+#print axioms LP.C20_spec_pop
+#print axioms LP.C20_spec_remove_all
+#print axioms LP.HSet.C20_close_length
+#print axioms LP.HSet.probe_spec
+#print axioms LP.HSet.C20_contains_sound
